@@ -46,7 +46,7 @@ ODD_WALL = [(1.25, -0.43), (1.25, 0.40), (1.30, 0.45), (1.75, 0.47), (1.75, -0.4
 def odd_spec(geometry="lsn", orthogonal=True, options=None, **kw):
     """a grid on which no two options that could be confused coincide: every length, count, range and multiplier differs from its default
     and from its siblings, psi is in other units (x 0.37), the psi array is not square (dR != dZ), profiles are non-trivial, the wall has
-    slanted and 45-degree sections, two boundary guard cells"""
+    slanted and 45-degree sections, two boundary guard cells, and the whole problem is translated in Z so that Z > max(R) everywhere"""
     o = dict(finecontour_Nfine=40, nx_core=3, nx_pf=3, nx_sol=2, ny_inner_divertor=3, ny_outer_divertor=5, ny_sol=6, ny_inner_sol=4, ny_outer_sol=6,
              ny_inner_lower_divertor=3, ny_outer_lower_divertor=5, ny_inner_upper_divertor=4, ny_outer_upper_divertor=2,
              psinorm_core=0.88, psinorm_sol=1.12, psinorm_pf=0.93, y_boundary_guards=2, N_norm_prefactor=1.3,
@@ -62,7 +62,7 @@ def odd_spec(geometry="lsn", orthogonal=True, options=None, **kw):
                  nonorthogonal_target_all_poloidal_spacing_range_inner=0.9, nonorthogonal_target_all_poloidal_spacing_range_outer=1.1)
     o.update(options or {})
     s = {"case": "tokamak", "geometry": geometry, "options": o, "fpol": "linear", "pressure": "parab", "wall": ODD_WALL,
-         "mirror": False, "psi_sign": 0.37, "nxg": 65, "nyg": 81, "extract": [], "odd": True}
+         "mirror": False, "psi_sign": 0.37, "nxg": 65, "nyg": 81, "extract": [], "odd": True, "z_offset": 2.25}
     s.update(kw)
     return s
 
@@ -94,6 +94,10 @@ def make_equilibrium(spec):
     if spec.get("mirror"):
         # reflect in the midplane Z -> -Z (z1d is symmetric about 0)
         psi2d = psi2d[:, ::-1].copy()
+    # rigid translation of the whole problem in Z (psi grid and wall): nothing in any property depends on the origin of Z
+    zoff = float(spec.get("z_offset", 0.0))
+    if zoff:
+        z1d = z1d + zoff
     sgn = spec.get("psi_sign", 1.0)
     psi2d = psi2d * sgn
     psi1d = psi1d * sgn
@@ -117,6 +121,8 @@ def make_equilibrium(spec):
         wall = [(float(a), float(b)) for a, b in wall]
         if spec.get("mirror"):
             wall = [(a, -b) for a, b in wall]
+        if zoff:
+            wall = [(a, b + zoff) for a, b in wall]
     eq = tokamak.TokamakEquilibrium(
         r1d, z1d, psi2d, psi1d, fpol, pressure=pressure, wall=wall,
         settings=dict(spec["options"]), nonorthogonal_settings=dict(spec["options"]),
@@ -201,9 +207,21 @@ def worker(spec_path, out_path):
             if spec.get("redistribute") is not None:
                 # the interactive sequence: show the grid, then change non-orthogonal settings step by step
                 mesh.calculateRZ()
-                for st in spec["redistribute"]:
-                    mesh.redistributePoints(dict(st))
+                res["step_errors"] = []
+                for k_, st in enumerate(spec["redistribute"]):
+                    st = dict(st)
+                    if st.pop("__may_fail__", False):
+                        # a step the code is allowed to refuse (an explicit exception): the interactive user carries on with the next one
+                        try:
+                            mesh.redistributePoints(st)
+                            mesh.calculateRZ()
+                        except Exception as e_:  # noqa
+                            res["step_errors"].append((k_, type(e_).__name__, str(e_)[:200]))
+                        continue
+                    res["failing_step"] = k_
+                    mesh.redistributePoints(st)
                     mesh.calculateRZ()
+                res["failing_step"] = "after-sequence"
                 res["recorded_nonorthogonal_options"] = {k: (v if isinstance(v, (int, float, str, bool, type(None))) else str(v))
                                                          for k, v in dict(eq.nonorthogonal_options).items()}
                 res["region_nonorthogonal_options"] = {name: {k: (v if isinstance(v, (int, float, str, bool, type(None))) else str(v))
